@@ -303,7 +303,7 @@ class CmpiEqualOperands(Spec):
         def b_from_bool(ex, st, args, kw):
             from pyvc.engine import Res
 
-            spec.const = args[0]
+            st.ghost["const"] = args[0]  # per-path record (Spec attributes are shared by all paths)
             return [Res("val", VRef(z3.IntVal(60), "BoolAttr"), st)]
 
         def b_const(ex, st, args, kw):
@@ -315,7 +315,7 @@ class CmpiEqualOperands(Spec):
             """rewriter.replace(op, new_op): the replacement must denote the value of op's result."""
             from pyvc.engine import Res
 
-            v = spec.const
+            v = st.ghost["const"]
             vz = v.z if isinstance(v, VBool) else z3.BoolVal(bool(v))
             w = spec.w
             ex.oblige(st, "call-pre", "replacement-denotes-the-same-value", vz == CMPI_PRED[spec.pred](spec.x, spec.x, w), "property")
